@@ -250,11 +250,15 @@ func (exp *expressionStream) normalizeLicense(license string) *token {
 		}
 	}
 	if exp.hasMore() && exp.expression[exp.index:exp.index+1] == "+" {
-		adjustedLicense := license[0:lenLicense] + "-or-later"
-		if token := licenseLookup(adjustedLicense); token != nil {
-			// need to consume the + to avoid a + operator token being added
-			exp.index++
-			return token
+		// only an id that is itself on the (deprecated) list can be followed by `+`; a stem that
+		// merely has a listed -or-later form (e.g. GFDL-1.1-invariants) is not a license id
+		if deprecated, _ := deprecatedLicense(license); deprecated {
+			adjustedLicense := license[0:lenLicense] + "-or-later"
+			if token := licenseLookup(adjustedLicense); token != nil {
+				// need to consume the + to avoid a + operator token being added
+				exp.index++
+				return token
+			}
 		}
 	}
 	if strings.HasSuffix(license, "-or-later") {
